@@ -40,6 +40,11 @@ structure AInput where
   minx : Option (List Nat)
   /-- column indices stored in sparse row i (1-based) of `data->A` -/
   rows : Nat → List Nat
+  /-- ghost: identity of the data set (round 3: histories that `set()` other data) -/
+  id : Nat := 0
+  /-- `data->A->rows()`, `data->A->columns()`: the shape `A_dot`, `b_dot` are given -/
+  m : Nat := 0
+  n : Nat := 0
 
 /-- the object behind `least_squares` -/
 inductive Solver
